@@ -5,6 +5,7 @@ import (
 	"math/rand/v2"
 	"strings"
 
+	"github.com/nlnwa/whatwg-url/canonicalizer"
 	"github.com/nlnwa/whatwg-url/url"
 
 	"verif/core"
@@ -130,6 +131,11 @@ func applyOp(u *url.Url, op core.Op) *url.Url {
 		u.SetSearchParams(u.SearchParams())
 	case "setsp-clone":
 		u.SetSearchParams(u.Clone().SearchParams())
+	case "setsp-foreign":
+		// parameters taken from a URL of a parser with a laxer query set (what the shipped profiles use)
+		if o, err := foreignParser.Parse("http://other.example/?" + op.Arg(0)); err == nil && o != nil {
+			u.SetSearchParams(o.SearchParams())
+		}
 	case "setsp-roundtrip":
 		o := u.Clone()
 		old := u.SearchParams()
@@ -190,6 +196,9 @@ func respellOp(op core.Op, ten [10]string) core.Op {
 	}
 	return sOp(setter, respell(ten[tenIndexOf[setter]], kind))
 }
+
+var foreignParser = url.NewParser(url.WithQueryPercentEncodeSet(canonicalizer.LaxQueryPercentEncodeSet), url.WithSpecialQueryPercentEncodeSet(canonicalizer.LaxQueryPercentEncodeSet),
+	url.WithSkipEqualsForEmptySearchParamsValue())
 
 func opBytes(op core.Op) int {
 	n := 0
